@@ -14,7 +14,7 @@ TABLE = {'---': '—', '--': '–', '``': '“', "''": '”',
          '~': '\xa0', '\\,': ' ', '\\%': '%', '\\&': '&', '\\$': '$',
          '\\#': '#', '\\_': '_', '\\{': '{', '\\}': '}', '\\\\': ' ', '&': ' '}
 SYMS = ['a', 'B', ' ', '\n', '.', ',', '-', '`', "'", '~', '\\,', '\\%', '&',
-        '\\\\', '\\{', '?', '!', '\\$', 'é']
+        '\\\\', '\\{', '?', '!', '\\$', 'é', '*']
 KEYS = sorted(TABLE, key=lambda k: -len(k))
 
 
